@@ -1,6 +1,6 @@
 import GoomVerif.Drv.Util
 import GoomVerif.Model.X86Dec
-/-! Driver for C16: `c16.dec <hex bytes>` → `err=<class> len=<n> op=<NAME> pcrel=<n> pcreloff=<n>` from the model interpreter. -/
+/-! Driver for C16: `c16.dec <hex bytes>` → `err=<class> len=<n> op=<NAME> pcrel=<n> pcreloff=<n> opcode=0x<hex>` from the model interpreter. -/
 namespace Drv.C16
 open X86Dec
 
@@ -13,7 +13,7 @@ def opName (n : Nat) : String :=
   | none => s!"Op({n})"
 
 def show_ (r : Res) : String :=
-  s!"err={errName r.err} len={r.len} op={opName r.op} pcrel={r.pcrel} pcreloff={r.pcreloff}"
+  s!"err={errName r.err} len={r.len} op={opName r.op} pcrel={r.pcrel} pcreloff={r.pcreloff} opcode={hexNat r.opcode}"
 
 def handle (toks : List String) : Option String :=
   match toks with
